@@ -5,7 +5,7 @@
 (* push an object frame (saving the sanitisation mode) and Return pops it (restoring it); Raise    *)
 (* unwinds frame by frame - the generated code's try/finally.                                      *)
 (*                                                                                                *)
-(* Values are chosen lazily at the step that consumes them (frame.given = "Free": TLC explores     *)
+(* Values are chosen lazily at the step that consumes them (frame.given = Free: TLC explores       *)
 (* all objects of the bounded domains DOMS) or taken from a given object (trace validation).       *)
 EXTENDS ProtoAst
 CONSTANT DOMS          \* [byte, char, short, three, int : sets of limb pairs; strs; alpha; counts; blobs; unrec; strict]
